@@ -25,14 +25,25 @@ EXPLANATION = ('PARTIAL. Proved (Coq, unbounded in the operands): for every expo
                'recovers the operands; the exported list of production pairs that can recognise a common token sequence is '
                'exact (sound unification check), so for a variant outside that list every production of the grammar that '
                'recognises its printed form is its own (hence same class, same operands, same bytes under the C08 encoder '
-               'model). NOT modelled, validated by correspondence only: the regular-expression lexer (the model starts from '
-               'tokens; glue-freeness of adjacent syntax elements is a checked side condition), number parsing, the Earley '
-               'parser and its priority/tie-breaking among ambiguous productions, directives, relocations, register-set '
-               'operands (arm/thumb push/pop) and multi-token register names (avr r25:r24 pairs).')
+               'model). Text level (Props/C09_text.v, Model/AsmLexer.v): a hand model of AsmLexer (token classes REAL, BINNUMBER, '
+               'HEXNUMBER, NUMBER, ID, SKIP, GLYPH, STRING, COMMENT with make_num) and of Syntax.render/str(int); proved: the model '
+               'lexer splits the printed text of every well-formed syntax into exactly the rendered tokens (integers of any size '
+               'and sign, every register name, identifier labels), parse_number (print_number z) = z for all z (decimal is the only '
+               'format any ISA prints: render_text == str(ins) is cross-checked on every sampled instance), and per ISA: lexing '
+               'str(ins) of a non-ambiguous variant and trying every production yields exactly (variant, operands). Relocations: '
+               'model-level corollary (same class and operands => same exported relocation rows) plus reflected well-formedness '
+               'of the exported (class, relocation type, offset, addend, label operand) rows. NOT proved, validated by correspondence '
+               'only: that the model lexer equals the real regular-expression lexer (printed forms + near-miss pool + random '
+               'strings per run; REAL and STRING tokens and non-ASCII digits are outside the model), the Earley parser and its '
+               'priority/tie-breaking among ambiguous productions, directives, that relocations() is the exported function of '
+               '(class, operands), register-set operands (arm/thumb push/pop) and multi-token register names (avr r25:r24 pairs).')
 TRUSTED = ['tools/props/c09_export.py (reads Syntax.syntax and the productions/closures of arch.assembler.parser.g; the Coq check '
            'wf_entry re-derives the production from the syntax and compares)',
            'Model/AsmSyntax.v is a faithful token-level reading of Syntax.render, AsmLexer.handle_id and generate_syntax_rule '
            '(cross-checked on every run against the real lexer and the real assembler)',
+           'Model/AsmLexer.v is a faithful reading of AsmLexer.tok_spec (ordered alternation, greedy classes), make_num and '
+           'Syntax.render; Coq DecimalString/DecimalZ printing equals Python str(int) (both cross-checked per run: real lexer vs '
+           'model on printed forms, a near-miss pool and random strings; print_number vs str on boundary integers up to 2^70)',
            'the Earley parser returns a parse whenever one production matches the whole line (C32 covers the LR parser only)',
            'tools/props/c09_replay.py Python mirror of render/matches (cross-checked against the Coq functions on every run)']
 ASSUMPTIONS = ['labels are identifiers that are not keywords of the assembler in any letter case (keyword labels: refuted, see '
@@ -214,9 +225,15 @@ def run(ctx):
                           unmodelled=[c for c, _ in b['unm']], ambiguous_pairs=len(b['amb']),
                           variants_in_ambiguous_pairs=len({k for p in b['amb'] for k in p}),
                           keyword_label_lowercased=b['info'].kwlabel_lower) for nm, b in B.items()}
-    ok, _ = ctx.build(['Proofs/C09_tables.vo'])
+    for nm, b in B.items():
+        st['isa'][nm]['label_form_variants_with_relocation_row'] = len(getattr(b['info'], 'reloc_rows', []))
+    from props import c09_export as X
+    gen = ['Gen/Tab_syntax_%s.vo' % nm for nm, _an in X.ARCHS]
+    ok, _ = ctx.build(gen + ['Proofs/C09_tables.vo', 'Proofs/C09_lexer.vo', 'Proofs/C09_reloc.vo',
+                             'Proofs/C09_text_tables.vo'])
     if ok:
         ctx.check_props('Props/C09.v')
+        ctx.check_props('Props/C09_text.v')
     work(ctx, B, correspondence=True)
     ctx.cov['exhaustive'] = False
 
@@ -231,9 +248,12 @@ def work(ctx, B, correspondence):
     st = ctx.cov['stages']
     deep = (not ctx.quick()) or bool(ctx.failed_stages)
     n_per = 20 if not ctx.quick() else 4
-    corr_cap = 45 if ctx.quick() else 500      # model/lexer/recogniser cases per ISA (every instance is replayed)
+    corr_cap = 30 if ctx.quick() else 500      # model/lexer/recogniser cases per ISA (every instance is replayed)
     rcases, rrecs = [], []      # render vs lexer
     mcases, mrecs = [], []      # matching_from vs mirror
+    tcases, lcases, trecs = [], [], []      # render_text vs str(ins); model lexer vs real lexer
+    qcases, qrecs = [], []      # relocs_of vs Instruction.relocations()
+    reloc_idx = {nm: {i for i, _ in getattr(b['info'], 'reloc_rows', [])} for nm, b in B.items()}
     dist = {}
     n_eval = 0
     for nm, b in B.items():
@@ -282,6 +302,20 @@ def work(ctx, B, correspondence):
                 lx = R.lex_view(info, text)
                 rcases.append(('render regs_%s (s_syn (entry_at stab_%s %d)) [%s]' % (nm, nm, k, '; '.join(cop(m) for m in mops)), lx))
                 rrecs.append((nm, e, mops, text))
+                # (a') text level: Syntax.render vs render_text, real lexer vs model lexer on the printed text
+                opsl = '; '.join(cop(m) for m in mops)
+                if all(32 <= ord(ch) < 127 for ch in text):
+                    tcases.append(('render_text regs_%s (s_syn (entry_at stab_%s %d)) [%s]' % (nm, nm, k, opsl), text))
+                    lcases.append(('lex %s' % coq_str(text), None if lx is None or any(t[0] == '?' for t in lx) else lx))
+                    trecs.append((nm, e['cls'], text))
+                # (c) relocations: Instruction.relocations() vs the exported rows
+                if k in reloc_idx[nm]:
+                    try:
+                        rl = [(r.name, r.offset, r.addend, r.symbol_name) for r in ins.relocations()]
+                    except Exception:   # noqa: BLE001
+                        rl = None
+                    qcases.append(('relocs_val (relocs_of relocs_%s %d%%nat [%s])' % (nm, k, opsl), rl))
+                    qrecs.append((nm, e['cls'], text))
                 if lx is None or any(t[0] == '?' for t in lx):
                     continue
                 # (b) model recogniser over the whole grammar vs its mirror; real parser result among the matches
@@ -319,18 +353,69 @@ def work(ctx, B, correspondence):
     if not ctx.build(['Gen/Tab_syntax_%s.vo' % nm for nm in B] + ['Model/AsmSyntax.vo', 'Lib/Val.vo'])[0]:
         return
     st['correspondence_cases'] = {'render_vs_lexer': len(rcases), 'recogniser_vs_mirror': len(mcases)}
-    bad = ctx.run_cases('render', imports, rcases, shard=300)
+    bad = ctx.run_cases('render', imports, rcases, shard=600)
     if bad:
         for i in bad[:5]:
             ctx.log('model render and real lexer disagree on', rrecs[i][0], rrecs[i][1]['cls'], rrecs[i][2], repr(rrecs[i][3]))
         ctx.failed_stages.append(('correspondence', 'Model.AsmSyntax.render and the real lexer disagree on %d printed forms, first: %s %s %r'
                                   % (len(bad), rrecs[bad[0]][0], rrecs[bad[0]][1]['cls'], rrecs[bad[0]][3])))
-    bad = ctx.run_cases('matching', imports, mcases, shard=150)
+    bad = ctx.run_cases('matching', imports, mcases, shard=300)
     if bad:
         for i in bad[:5]:
             ctx.log('Coq recogniser and its Python mirror disagree on', mrecs[i][0], mrecs[i][1]['cls'], repr(mrecs[i][3]))
         ctx.failed_stages.append(('correspondence', 'Model.AsmSyntax.matching_from and its Python mirror disagree on %d token lists, '
                                   'first: %s %r' % (len(bad), mrecs[bad[0]][0], mrecs[bad[0]][3])))
+    text_correspondence(ctx, B, imports, tcases, lcases, trecs, qcases, qrecs)
+
+
+NEAR_MISS = ['0x1F', '0X1f', '0x', '0xg', '0x1F.5', '0b', '0b101', '0b2', '0b101x', '00b1', '007', '-0', '+5', '- 5', '--5',
+             '1.5', '1.', '.5', '5.x', '12.5.6', '0b1.5', '$ff', '$', '$g', '%101', '%2', '%12', '% 1', '%', 'a%1', 'a.b',
+             'lbl.1', '_x9', '9a', '1e5', '123456789012345678901234567890', '-99999999999999999999', '0000', '0x0000000000000001',
+             "'str'", "'unterminated", "a 'q' b", 'a ; comment 1.5', ';', ' ', '', 'add x1,x2', 'add  x1 ,  x2', 'x1y', 'R1',
+             '@&#=,.:()[]{}+-*%', '!', '~a', 'a!b', 'a"b', 'mov.w #0x10, 4(r5)', 'ldr r1, =lbl', 'x1-1', 'a-b', 'a+-3',
+             '4(x2)', '4x', 'x4', '0x1G', '0xabcdefABCDEF', '1_000', '__', '_', 'A_b_9', '[rax+8]', '{r1-r3}', 'r25:r24', 'a:b',
+             '<', 'a<b', '\\', 'a|b', '^', '0b0', '0x0', '%0', '$0', '1 2 3', '1,2', '(1)', '-(1)', '#-5', '#+5', '@a']
+
+
+def text_correspondence(ctx, B, imports, tcases, lcases, trecs, qcases, qrecs):
+    """text level (lexer, number printing, render_text) and relocation rows against the implementation"""
+    from props import c09_replay as R
+    from vlib import boundary_pool
+    st = ctx.cov['stages']
+    if not B or not ctx.build(['Model/AsmLexer.vo', 'Model/AsmReloc.vo'])[0]:
+        return
+    info = next(iter(B.values()))['info']
+    imps = imports + ['Model.AsmLexer', 'Model.AsmReloc']
+    # near-miss pool and random strings over the lexer's alphabet: real AsmLexer vs model lexer
+    pool = list(NEAR_MISS)
+    alphabet = 'ab_xX01259 .,-+%$#()[]:;\'Z'
+    for _ in range(120 if ctx.quick() else 1500):
+        pool.append(''.join(ctx.rng.choice(alphabet) for _ in range(ctx.rng.randrange(1, 9))))
+    ncases = []
+    for s in pool:
+        lx = R.lex_view(info, s)
+        ncases.append(('lex %s' % coq_str(s), None if lx is None or any(t[0] == '?' for t in lx) else lx))
+    # str(int) vs print_number; the $int$ reading of the text
+    nums = sorted(set(boundary_pool(70) + [ctx.rng.randrange(-(1 << 64), 1 << 64) for _ in range(30)] + [0, -1, 10, -10, 99, 100]))
+    pcases = [('print_number %s' % coq_z(z), str(z)) for z in nums] + \
+             [('parse_number %s' % coq_str(str(z)), z) for z in nums[::3]]
+    st['text_correspondence_cases'] = {'render_text_vs_str': len(tcases), 'lexer_on_printed_forms': len(lcases),
+                                       'lexer_near_miss_and_random': len(ncases), 'print_parse_number': len(pcases),
+                                       'relocation_rows': len(qcases)}
+    for name, cases, recs, what in (
+            ('rtext', tcases, trecs, 'Model.AsmLexer.render_text and str(instruction)'),
+            ('lexp', lcases, trecs, 'Model.AsmLexer.lex and the real AsmLexer (printed forms)'),
+            ('lexn', ncases, [(None, None, s) for s in pool], 'Model.AsmLexer.lex and the real AsmLexer (near-miss pool)'),
+            ('nums', pcases, [(None, None, c[0]) for c in pcases], 'print_number/parse_number and str(int)/int(str)'),
+            ('reloc', qcases, qrecs, 'Model.AsmReloc.relocs_of and Instruction.relocations()')):
+        if not cases:
+            continue
+        light = ['Model.AsmSyntax', 'Model.AsmLexer']      # no table needed
+        bad = ctx.run_cases(name, light if name in ('lexp', 'lexn', 'nums') else imps, cases, shard=600)
+        if bad:
+            for i in bad[:5]:
+                ctx.log(what, 'disagree on', recs[i][0], recs[i][1], repr(recs[i][2]))
+            ctx.failed_stages.append(('correspondence', '%s disagree on %d cases, first: %r' % (what, len(bad), recs[bad[0]][2])))
 
 
 MANIFEST = {
@@ -341,10 +426,16 @@ MANIFEST = {
             'of production pairs able to recognise a common token sequence is exact; hence for every variant outside that list the '
             'only production of the whole grammar (classes and directives) recognising its printed form is its own, giving the same '
             'class, operands and (C08 encoder model) bytes. Variants that are not well-formed (mnemonic glued to the operand, '
-            'register sets, multi-token avr register pairs) are listed as data and proved not well-formed. The statement about the '
-            'real assembler - lexer, number parsing, Earley parser and its choice among ambiguous productions, relocations - is '
-            'checked by replay only: str(ins) is assembled and compared (section bytes + relocations) with emitting ins directly '
-            'for sampled operands of the class variants of every ISA; keyword labels are refuted (c09_keyword_label_refuted).',
+            'register sets, multi-token avr register pairs) are listed as data and proved not well-formed. Text level: a Coq model '
+            'of the assembler lexer (all token classes of AsmLexer, make_num) and of Syntax.render/str(int) is proved to split '
+            'the printed text of every well-formed syntax into the rendered tokens and to read every printed integer back '
+            '(c09_lex_render, c09_int_text_roundtrip), so the per-ISA round trip is stated from the TEXT str(ins) '
+            '(c09_text_roundtrip_all); relocation rows per label-form class are exported and the relocation list is a proved '
+            'function of the recognised (class, operands). The statement about the real assembler - that the model lexer is the '
+            'real regular-expression lexer, the Earley parser and its choice among ambiguous productions, relocations() - is '
+            'checked by correspondence/replay only: str(ins) is assembled and compared (section bytes + relocations) with emitting '
+            'ins directly for sampled operands of the class variants of every ISA, the model lexer is compared with the real one '
+            'on printed forms, a near-miss pool and random strings; keyword labels are refuted (c09_keyword_label_refuted).',
     'note': 'trusted: Coq kernel, the exporter (reads closures of the grammar productions), the token-level hand model (validated per '
             'run against the real lexer and the real assembler), fixed PYTHONHASHSEED for tie-breaking among ambiguous productions. '
             'Defects found: 34 arm/thumb/x86_64 classes print the mnemonic glued to the first operand; arm push/pop print no braces; '
